@@ -27,6 +27,7 @@ inductive Val where
   | builtin (name : String)
   | lazy (id : Nat)
   | mark (loop : Nat)          -- VM only: `SexpStackmark` (a loop's data-stack mark)
+  | sym (name : String)        -- a symbol as data: only inside the source `substitute` returns (C16)
 deriving Repr, Inhabited, BEq, DecidableEq
 
 /-- Arrays live here; `aset` mutates in place, every constructor allocates. -/
@@ -81,6 +82,7 @@ def showVal (h : DataHeap) : Nat → Val → String
   | _, .builtin _ => "fn"
   | _, .lazy _ => "lazy"
   | _, .mark _ => "?*zygo.SexpStackmark"
+  | _, .sym s => s
   | 0, _ => "..."
   | d+1, .arr r => "[" ++ joinSp (showVals h d (h.get r)) ++ "]"
   | d+1, .pair a b => "(" ++ joinSp (showTail h d (.pair a b)) ++ ")"
@@ -100,13 +102,14 @@ def pr (h : DataHeap) (v : Val) : String := showVal h printDepth v
 
 /-- `Type()` of a value, as far as `BindSymbol` distinguishes: `none` = Go `nil` type
 (lists, functions, nil …), which is exempt from the rule. -/
-inductive Ty where | int | str | bool | emptyArr | arrOf
+inductive Ty where | int | str | bool | emptyArr | arrOf | sym
 deriving DecidableEq, Repr
 
 def tyOf (h : DataHeap) : Val → Option Ty
   | .int _ => some .int
   | .str _ => some .str
   | .bool _ => some .bool
+  | .sym _ => some .sym
   | .arr r => match h.get r with
     | [] => some .emptyArr
     | x :: _ => match x with
